@@ -292,6 +292,11 @@ func (rt *GraphicsPlatform) Text(str string) {
 	}
 	if rt.attr.Fill != rt.attr.Stroke {
 		text.Fill = rt.attr.Stroke
+		if text.Fill == "" {
+			// an empty stroke color is drawn in the default color; without an explicit
+			// fill the text would inherit the fill of the group it ends up in.
+			text.Fill = defaultAttr.Stroke
+		}
 	}
 	rt.elements = append(rt.elements, &text)
 }
